@@ -163,25 +163,34 @@ def run(ctx):  # noqa: C901, PLR0912, PLR0915
     for hname in ('on_unsubscribe_request', 'on_get_status_request', 'on_renew_request'):
         fi = repo.func(f'{SB}.SubscriptionsManagerBase.{hname}')
         g = cfg_of(fi)
-        none_nodes = [n for n in g.real_nodes() if ('subscription is None', True) in g.facts_at(n)]
-        some_nodes = [n for n in g.real_nodes() if ('subscription is None', False) in g.facts_at(n)]
+        # the local that holds the looked-up subscription, whatever it is called
+        holders = []
+        for n, _c in g.nodes_calling('_get_subscription_for_request'):
+            tg = n.stmt.targets[0] if isinstance(n.stmt, ast.Assign) else getattr(n.stmt, 'target', None)
+            if n.kind == 'stmt' and isinstance(tg, ast.Name):
+                holders.append(tg.id)
+        if len(holders) != 1:
+            raise AnalysisError(f'C08.R4: {hname} does not bind the result of _get_subscription_for_request to one local')
+        sv = holders[0]
+        none_nodes = [n for n in g.real_nodes() if (f'{sv} is None', True) in g.facts_at(n)]
+        some_nodes = [n for n in g.real_nodes() if (f'{sv} is None', False) in g.facts_at(n)]
         if not none_nodes or not some_nodes:
             raise AnalysisError(f'C08.R4: {hname} has no `subscription is None` branch')
         fault = any(call_name(c) == 'Fault' for n in none_nodes for c in n.calls()) and \
             any(call_name(c) == 'mk_reply_soap_message' and len(c.args) >= 2 and unparse(c.args[1]) == 'fault'
                 for n in none_nodes for c in n.calls())
         touches = [n for n in none_nodes for a in n.walk()
-                   if isinstance(a, ast.Attribute) and isinstance(a.value, ast.Name) and a.value.id == 'subscription']
+                   if isinstance(a, ast.Attribute) and isinstance(a.value, ast.Name) and a.value.id == sv]
         ctx.ob('C08.R4', f'{hname}: unknown => fault', fault and not touches,
                f'{hname}: an unknown subscription is answered with a Fault and nothing is done with it', fi=fi)
         # all effects on the subscription are in the other branch
         eff = []
         for n in g.real_nodes():
             for a in n.walk():
-                if isinstance(a, ast.Attribute) and isinstance(a.value, ast.Name) and a.value.id == 'subscription' and \
+                if isinstance(a, ast.Attribute) and isinstance(a.value, ast.Name) and a.value.id == sv and \
                         (isinstance(a.ctx, ast.Store) or a.attr == 'renew'):
                     eff.append(n)
-        ok = all(('subscription is None', False) in g.facts_at(n) for n in eff)
+        ok = all((f'{sv} is None', False) in g.facts_at(n) for n in eff)
         ctx.ob('C08.R4', f'{hname}: effects only on a known subscription', ok,
                f'{hname}: every effect on the subscription is dominated by `subscription is not None`', fi=fi,
                witness=[n.text()[:60] for n in eff])
@@ -190,21 +199,48 @@ def run(ctx):  # noqa: C901, PLR0912, PLR0915
                f'_get_subscription_for_request', fi=fi)
     gs = repo.func(f'{SB}.SubscriptionsManagerBase._get_subscription_for_request')
     g = cfg_of(gs)
-    rets = [n for n in g.nodes if n.kind == 'return']
-    src = unparse(gs.node)
-    excl = 'unsubscribed_at' in src
-    ok = excl
-    if excl:
-        # a subscription with unsubscribed_at set must be turned into None before it is returned
-        ok = any(isinstance(n, ast.If) and 'unsubscribed_at is not None' in unparse(n.test) and
-                 any(isinstance(s, ast.Assign) and unparse(s.targets[0]) == 'subscription' and
-                     isinstance(s.value, ast.Constant) and s.value.value is None for s in n.body)
-                 for n in walk_no_nested(gs.node))
+    # abstract values of the looked-up subscription: NONE (not in the table), ACTIVE (unsubscribed_at is None), ENDED
+    # (Unsubscribe was accepted, it waits for housekeeping).  No return may hand out ENDED - however the test is written.
+    from engine import enumval
+    lookups = [n for n in g.real_nodes() if n.kind == 'stmt' and isinstance(n.stmt, ast.Assign)
+               and isinstance(n.stmt.targets[0], ast.Name) and '_subscriptions' in unparse(n.stmt.value)
+               and any(call_name(c) in ('get_one', 'get') for c in n.calls())]
+    if len(lookups) != 1:
+        raise AnalysisError(f'C08.R4: expected one subscription lookup in _get_subscription_for_request, found {len(lookups)}')
+    var = lookups[0].stmt.targets[0].id
+
+    def _assign(v):
+        if isinstance(v, ast.Constant) and v.value is None:
+            return {'NONE'}
+        return None
+
+    def _atom(value, text):
+        table = {'$v is None': {'NONE': True, 'ACTIVE': False, 'ENDED': False},
+                 '$v': {'NONE': False, 'ACTIVE': True, 'ENDED': True},
+                 '$v.unsubscribed_at is None': {'NONE': None, 'ACTIVE': True, 'ENDED': False},
+                 '$v.unsubscribed_at': {'NONE': None, 'ACTIVE': False, 'ENDED': None}}
+        return table.get(text, {}).get(value)
+    st = enumval.analyse(g, var, ('NONE', 'ACTIVE', 'ENDED'), _assign, _atom)
+    leaked = []
+    n_ret = 0
+    for n in g.nodes:
+        if n.kind != 'return' or n.stmt.value is None:
+            continue
+        n_ret += 1
+        v = n.stmt.value
+        if isinstance(v, ast.Constant) and v.value is None:
+            continue
+        if isinstance(v, ast.Name) and v.id == var:
+            if 'ENDED' in st[n.id]:
+                leaked.append(f'return {var} at line {n.lineno} with {sorted(st[n.id])}')
+        else:
+            leaked.append(f'return {unparse(v)} at line {n.lineno}')
+    ok = n_ret > 0 and not leaked
     ctx.ob('C08.R4', 'unsubscribed is unknown', ok,
            '_get_subscription_for_request treats an already unsubscribed subscription as unknown' if ok else
            '_get_subscription_for_request still returns a subscription after Unsubscribe was accepted (it stays in the '
            'table until housekeeping removes it): Renew / GetStatus / a second Unsubscribe for it succeed instead of '
-           'being answered with a fault', fi=gs, node=rets[0].stmt if rets else None)
+           'being answered with a fault', fi=gs, witness=leaked)
 
     # ------------------------------------------------------------------ R5
     for q in (f'{SB}.SubscriptionsManagerBase._end_all_subscriptions',
